@@ -32,6 +32,8 @@ pub struct Cfg {
     pub auto_rotate: bool,
     /// size limit of a blob file (None = practically unlimited); with `auto_rotate` the worker rotates on it
     pub max_blob_size: Option<u64>,
+    /// deferred index dump times (min, max) in ms; None = (1, 3)
+    pub deferred_ms: Option<(u64, u64)>,
     /// every `Restart` re-opens the directory under another bloom configuration (1 -> 4 -> 3 -> 1 ...: other bit count, other hasher count, with an
     /// occasional 0 = no bloom): closed blobs written under different configurations then share filter groups
     pub bloom_flip: bool,
@@ -41,7 +43,7 @@ impl Cfg {
     pub fn to_json(&self) -> Value {
         json!({"keylen": self.keylen, "bloom": self.bloom, "group": self.group, "allow_dup": self.allow_dup,
                "mt": self.mt, "validate_data": self.validate_data, "ignore_corrupted": self.ignore_corrupted,
-               "max_dirty": self.max_dirty, "key_salt": self.key_salt, "n_keys": self.n_keys, "n_meta": self.n_meta, "max_records": self.max_records, "auto_rotate": self.auto_rotate, "bloom_flip": self.bloom_flip, "max_blob_size": self.max_blob_size})
+               "max_dirty": self.max_dirty, "key_salt": self.key_salt, "n_keys": self.n_keys, "n_meta": self.n_meta, "max_records": self.max_records, "auto_rotate": self.auto_rotate, "bloom_flip": self.bloom_flip, "max_blob_size": self.max_blob_size, "deferred_ms": self.deferred_ms.map(|d| vec![d.0, d.1])})
     }
     pub fn from_json(v: &Value) -> Option<Cfg> {
         Some(Cfg {
@@ -60,12 +62,13 @@ impl Cfg {
             auto_rotate: v.get("auto_rotate").and_then(|x| x.as_bool()).unwrap_or(false),
             bloom_flip: v.get("bloom_flip").and_then(|x| x.as_bool()).unwrap_or(false),
             max_blob_size: v.get("max_blob_size").and_then(|x| x.as_u64()),
+            deferred_ms: v.get("deferred_ms").and_then(|x| x.as_array()).and_then(|a| Some((a.first()?.as_u64()?, a.get(1)?.as_u64()?))),
         })
     }
     pub fn default_for(n_keys: u16, n_meta: u8) -> Cfg {
         Cfg {
             keylen: 8, bloom: 1, group: 2, allow_dup: true, mt: true, validate_data: false,
-            ignore_corrupted: false, max_dirty: None, key_salt: 1, n_keys, n_meta, max_records: None, auto_rotate: false, bloom_flip: false, max_blob_size: None,
+            ignore_corrupted: false, max_dirty: None, key_salt: 1, n_keys, n_meta, max_records: None, auto_rotate: false, bloom_flip: false, max_blob_size: None, deferred_ms: None,
         }
     }
 }
@@ -291,7 +294,7 @@ pub fn builder_for(cfg: &Cfg, dir: &Path) -> Builder {
         .max_blob_size(cfg.max_blob_size.unwrap_or(1 << 40))
         .max_data_in_blob(cfg.max_records.unwrap_or(1_000_000_000))
         .set_bloom_filter_group_size(cfg.group)
-        .set_deferred_index_dump_times(Duration::from_millis(1), Duration::from_millis(3))
+        .set_deferred_index_dump_times(Duration::from_millis(cfg.deferred_ms.map(|d| d.0).unwrap_or(1)), Duration::from_millis(cfg.deferred_ms.map(|d| d.1).unwrap_or(3)))
         .set_validate_data_during_index_regen(cfg.validate_data);
     if cfg.allow_dup {
         b = b.allow_duplicates();
